@@ -468,7 +468,17 @@ func (f *fctx) stmt(s ast.Stmt, e *env, ind int, k cont) string {
 		}
 		return f.varSpecs(specs, lhs, rhs, e, ind, k)
 	case *ast.ExprStmt:
-		call, ok := s.X.(*ast.CallExpr)
+		x := s.X
+		if u, isRecv := x.(*ast.UnaryExpr); isRecv && u.Op == token.ARROW {
+			// `<-x.After(d)`: the statement blocks until the channel returned by a call of a
+			// "wait" intrinsic delivers; the intrinsic stands for the call and the receive
+			if cc, isCall := unparen(u.X).(*ast.CallExpr); isCall {
+				if c := f.resolve(cc, e); c.in != nil && c.in.Kind == "wait" {
+					x = cc
+				}
+			}
+		}
+		call, ok := x.(*ast.CallExpr)
 		if !ok {
 			t.fail(s.Pos(), "expression statement that is not a call")
 		}
@@ -1156,6 +1166,14 @@ func (f *fctx) resolve(call *ast.CallExpr, e *env) *callee {
 	intr := func(key string, recv ast.Expr) *callee {
 		if in, ok := t.cfg.Intrinsics[key]; ok {
 			t.usedIntr[key] = true
+			if in.Kind == "wait" {
+				// a blocking wait on a clock object kept in the state: a mutation of that object
+				// which takes one reading of the clock (the instant the wait starts)
+				if in.Clock == 0 {
+					in.Clock = 1
+				}
+				return &callee{kind: "mut", in: in, key: key, recv: recv}
+			}
 			return &callee{kind: in.Kind, in: in, key: key, recv: recv}
 		}
 		return nil
